@@ -385,3 +385,28 @@ def c15i(ctx):
                 internals.append((f, x))
     ctx.check(not internals, 'async_:queues-through-their-interface', 'no function of the pool touches the internals of a Queue (deque, mutex, counters)', fn,
               fail='%s manipulates the internals of a queue: the task accounting (unfinished_tasks) is bypassed' % (internals[0][0].short if internals else ''))
+
+
+@rule('C15.j', floor=2)
+def c15j(ctx):
+    """the call terminates also on a pool that was stopped before: shutdown() queues one stop sentinel for each worker thread that was
+    *started* (the list map_each keeps in self.pool), not one per configured thread -- a call with a single item is made directly and
+    starts none, and sentinels nobody takes stop the workers of the next call before they do any work"""
+    sd = ctx.fn(A + ':ThreadPool.shutdown')
+    puts = [x for x in sd.walk() if is_call(x, 'self.task_queue.put') and x.args and const_value(x.args[0], 1) is None]
+    if not puts:
+        raise Undecided('ThreadPool.shutdown: no sentinel is queued')
+    ok = True
+    for x in puts:
+        loop = enclosing(x, ast.For)
+        per_started = loop is not None and contains(sd.canon.expr(loop.iter), lambda y: isinstance(y, ast.Attribute) and unparse(y) == 'self.pool')
+        sized = loop is not None and contains(sd.canon.expr(loop.iter), lambda y: isinstance(y, ast.Attribute) and unparse(y) == 'self.pool_size')
+        # (counting by pool_size is the same number when it only happens for a pool that was started)
+        guarded = sd.cfg.guarded(sd.cfg.node_for(x), lambda at: at.op is None and unparse(at.expr) == 'self.pool', True)
+        ok = ok and ((per_started and not sized) or (sized and guarded))
+    ctx.check(ok, 'ThreadPool.shutdown:one-sentinel-per-started-thread', 'stop sentinels are queued for the threads in self.pool', sd,
+              fail='shutdown() queues stop sentinels by the configured pool size, also when no thread was started (single item): they stay in '
+                   'the task queue and stop the workers of the next call, which never returns')
+    me = ctx.fn(A + ':ThreadPool.map_each')
+    starts = [s for s in me.walk() if isinstance(s, ast.Assign) and unparse(s.targets[0]) == 'self.pool' and is_call(s.value, 'self._init_pool')]
+    ctx.check(len(starts) == 1, 'ThreadPool.map_each:keeps-started-threads', 'the started threads are kept in self.pool', me)
